@@ -1,9 +1,8 @@
 #!/bin/sh
 # usage: tools/try_all.sh C01 C02 ...  — run every seeded mutant of the given properties against its check
 for id in "$@"; do
-  for k in 1 2; do
-    p=/tmp/mut/$id.out/$k/patch.diff
-    [ -f "$p" ] || p=/verif/seeded/$id-$k/patch.diff
+  for k in ${KS:-1 2 3 4}; do
+    p=/verif/seeded/$id-$k/patch.diff
     [ -f "$p" ] || continue
     if ! git -C /repo apply --check "$p" 2>/dev/null; then echo "== $id mutant $k: PATCH DOES NOT APPLY"; continue; fi
     git -C /repo apply "$p"
